@@ -366,6 +366,10 @@ func (vc *VC) applySpec(calleeName string, spec *FuncSpec, sig *types.Signature,
 			r = vc.fresh("ret."+calleeName, vc.d.sortOf(rt))
 		}
 		vc.assumeRange(r, rt, st, reach)
+		if spec.Pure {
+			// the value of a pure (state-independent) function cannot be storage allocated by this activation
+			vc.assumeRange(r, rt, vc.entry, reach)
+		}
 		results = append(results, r)
 		resVals = append(resVals, SVal{t: r, typ: rt, sort: vc.d.sortOf(rt)})
 	}
